@@ -7,56 +7,260 @@
 (* BEFORE any effect iff R is not a subset of f's declared flags, and the  *)
 (* context stays live; otherwise f runs.  IoSafe: in a context requiring   *)
 (* "iosafe" no call performs an effect on the outside world.               *)
+(*                                                                         *)
+(* Round 2: the ROUTE by which the Go function is reached is a dimension   *)
+(* of the model.  The verdict of the gate never depends on the route; what *)
+(* depends on the route is (a) whether the handler is reached at all (to-  *)
+(* be-closed variables and finalisers of a context that is terminated are  *)
+(* dropped), (b) which context is the current one when the handler runs (a *)
+(* finaliser runs in a context that shares the finaliser pool in which its *)
+(* value was registered: a context owns a pool iff it has a hard limit),   *)
+(* (c) whether an error raised by the handler reaches the operation that   *)
+(* triggered it, and (d) which library functions have to run themselves in *)
+(* the context for the route to exist (its carriers).                      *)
 (***************************************************************************)
 EXTENDS Integers, Sequences, FiniteSets, TLC, Json
 
-CONSTANTS NFn,        \* functions 1..NFn
-          Declared,   \* [1..NFn -> SUBSET Flags]
-          Class,      \* [1..NFn -> "pure" | "safeio" | "os"]   static reachability of OS primitives
-          ReqSets,    \* the sets of required flags to explore
-          InnerDefs   \* definitions of a context nested inside: records [flags, cpu, mem] (cpu/mem: a hard limit is set)
+CONSTANTS NFn,          \* functions 1..NFn
+          Declared,     \* [1..NFn -> SUBSET Flags]
+          Class,        \* [1..NFn -> "pure" | "safeio" | "os"]   static reachability of OS primitives
+          Kind,         \* [1..NFn -> "lib" | "probe"]  a probe is a Go function of the harness whose only effect is to record that it ran
+          Key,          \* [1..NFn -> STRING]  dotted Lua name ("table.sort"), used to name the carriers of a route
+          DirectChains, \* context chains explored with the direct route: every function
+          PlainChains,  \* context chains explored with the routes whose handler runs synchronously (hooks "plain", "close")
+          ExitChains,   \* context chains explored with the routes that depend on how the context ends (hooks "gc", "ctxclose")
+          AllLibOnRoutes, \* BOOLEAN: every library function that some context refuses goes through every route (thorough)
+          StrictGc      \* BOOLEAN: FALSE = a finaliser is gated by the context current when it runs (quotas.md);
+                        \*          TRUE  = by the context in which its value was created (not what golua promises)
 
 Flags == {"memsafe", "cpusafe", "iosafe", "timesafe"}
 
-VARIABLES req,      \* flags required by the active context
-          effects,  \* sequence of outside effects performed so far: <<f, class>>
-          alive, n, hist,
-          outer,    \* flags required by the enclosing context
-          inner     \* definition of the nested context the call is made in (or NoInner)
+(* A context definition is [flags |-> SUBSET Flags, lim |-> "none" | "cpu" | "mem" | "ms"]; a chain <<d1, .., dk>> is the
+   nesting root > d1 > .. > dk, the call is made in dk.  A nested context requires everything its parent requires, plus
+   its own flags, plus the flag implied by its hard limit. *)
+Implied(l) == CASE l = "cpu" -> {"cpusafe"} [] l = "mem" -> {"memsafe"} [] l = "ms" -> {"timesafe"} [] OTHER -> {}
+RECURSIVE ReqAt(_, _)
+ReqAt(ch, i) == IF i = 0 THEN {} ELSE ReqAt(ch, i - 1) \cup ch[i].flags \cup Implied(ch[i].lim)
+Req(ch) == ReqAt(ch, Len(ch))
 
-allvars == <<req, effects, alive, n, hist, outer, inner>>
+(* the root context owns a finaliser pool; a pushed context owns one iff it has a hard limit, else it shares its parent's *)
+Owns(ch, i) == i = 0 \/ ch[i].lim # "none"
+Owner(ch) == CHOOSE i \in 0..Len(ch) : Owns(ch, i) /\ \A j \in (i + 1)..Len(ch) : ~Owns(ch, j)
+
+VARIABLES fam,      \* "direct" | "plain" | "exit"
+          ch,       \* the chain of contexts
+          req,      \* flags required by the active context
+          effects,  \* set of outside effects performed so far: <<f, class, R>>  (R: flags in force when f ran)
+          alive, n, hist
+
+allvars == <<fam, ch, req, effects, alive, n, hist>>
 Emit(v) == PrintT(<<"@@", ToJson(v)>>)
 
-(* a nested context requires everything its parent requires, plus its own flags, plus the flags implied by its limits *)
-Nested(R, d) == R \cup d.flags \cup (IF d.cpu THEN {"cpusafe"} ELSE {}) \cup (IF d.mem THEN {"memsafe"} ELSE {})
-NoInner == [flags |-> {}, cpu |-> FALSE, mem |-> FALSE, none |-> TRUE]
-
-Init == /\ outer \in ReqSets /\ inner \in InnerDefs \cup {NoInner}
-        /\ req = (IF "none" \in DOMAIN inner THEN outer ELSE Nested(outer, inner))
-        /\ effects = <<>> /\ alive = TRUE /\ n = 0 /\ hist = <<>>
+Init == /\ \/ fam = "direct" /\ ch \in DirectChains
+           \/ fam = "plain" /\ ch \in PlainChains
+           \/ fam = "exit" /\ ch \in ExitChains
+        /\ req = Req(ch)
+        /\ effects = {} /\ alive = TRUE /\ n = 0 /\ hist = <<>>
 
 Allowed(f, R) == R \subseteq Declared[f]
+(* an "os" function performs its effect whenever it runs, a "safeio" function only when the context does not require
+   iosafe (the safeio primitives refuse otherwise) *)
+MayEffect(f, R) == Allowed(f, R) /\ (Class[f] = "os" \/ (Class[f] = "safeio" /\ "iosafe" \notin R))
 
-(* one call of f; an "os" function performs its effect whenever it runs, a "safeio" function only when
-   the context does not require iosafe (the safeio primitives refuse otherwise) *)
+(* ---------------------------------------------------------------------------------------------------------------- *)
+(* direct route (round 1): one call of f in the innermost context                                                     *)
 CallGo(f) ==
-  /\ alive /\ n < 1
+  /\ fam = "direct" /\ alive /\ n < 1
   /\ n' = n + 1
   /\ alive' = TRUE                                   \* a refused call never terminates the context
-  /\ effects' = IF ~Allowed(f, req) THEN effects
-                ELSE IF Class[f] = "os" \/ (Class[f] = "safeio" /\ "iosafe" \notin req)
-                THEN Append(effects, <<f, Class[f]>>) ELSE effects
+  /\ effects' = IF MayEffect(f, req) THEN effects \cup {<<f, Class[f], req>>} ELSE effects
   /\ hist' = Append(hist, f)
-  /\ req' = req /\ UNCHANGED <<outer, inner>>
-  /\ Emit([f |-> f, req |-> req, outer |-> outer,
-           inner |-> IF "none" \in DOMAIN inner THEN [none |-> TRUE] ELSE [flags |-> inner.flags, cpu |-> inner.cpu, mem |-> inner.mem], exp |-> IF Allowed(f, req) THEN "runs" ELSE "flag-error",
-           mayeffect |-> Allowed(f, req) /\ (Class[f] = "os" \/ (Class[f] = "safeio" /\ "iosafe" \notin req)),
+  /\ UNCHANGED <<fam, ch, req>>
+  /\ Emit([fam |-> "direct", f |-> f, req |-> req, ch |-> ch,
+           exp |-> IF Allowed(f, req) THEN "runs" ELSE "flag-error",
+           mayeffect |-> MayEffect(f, req),
            iosafelead |-> Allowed(f, req) /\ "iosafe" \in req /\ Class[f] = "os"])
 
-Next == \E f \in 1..NFn : CallGo(f)
+(* ---------------------------------------------------------------------------------------------------------------- *)
+(* routes                                                                                                             *)
+(* name     identifies the rendering (the Lua program shape) in the conformance check
+   modes    "go": the Go function itself is installed as the handler (metamethod, callback, body, iterator, ...);
+            "lua": a Lua closure is installed and calls the Go function
+   hook     "plain"    the handler runs synchronously inside the context, whatever happens later
+            "close"    same, the handler is a __close metamethod run when its variable goes out of scope (normally / by
+                       break / by return / while an error unwinds / by coroutine.close)
+            "ctxclose" the handler is the __close metamethod of a variable still pending when the context body ends
+            "gc"       the handler is a __gc metamethod of a value created in the context
+   exit     how the innermost context ends after the route was set up: "return" | "error" | "kill"
+   prop     TRUE iff an error raised by the handler makes the triggering operation fail (FALSE: the error is turned
+            into a warning (gc), is swallowed (hooks), or the operation fails anyway (message handler, close while unwinding))
+   carriers library functions that have to run inside the context for the route to exist *)
+Rt(name, modes, hook, exit, prop, carriers) ==
+  [name |-> name, modes |-> modes, hook |-> hook, exit |-> exit, prop |-> prop, carriers |-> carriers]
+Both == {"go", "lua"}
+GoOnly == {"go"}
+
+HookCarriers == {"debug.sethook", "coroutine.create", "coroutine.resume", "type"}
+CallRoutes ==
+  { Rt("call", GoOnly, "plain", "return", TRUE, {}),                       \* r = F(...) in a Lua function
+    Rt("tailcall", GoOnly, "plain", "return", TRUE, {}),                   \* return F(...)
+    Rt("method", GoOnly, "plain", "return", TRUE, {}),                     \* t:m(...) with t.m = F
+    Rt("strmethod", Both, "plain", "return", TRUE, {}),                    \* ("s"):m() with string.m = F
+    Rt("pcall", Both, "plain", "return", TRUE, {}),                        \* pcall(F, ...)
+    Rt("xpcall", Both, "plain", "return", TRUE, {"xpcall"}),               \* xpcall(F, h, ...)
+    Rt("xpcall-handler", Both, "plain", "return", FALSE, {"xpcall", "error"}),   \* xpcall(error, F, msg)
+    Rt("co-wrap", Both, "plain", "return", TRUE, {"coroutine.wrap", "~wrap"}),
+    Rt("co-resume", Both, "plain", "return", TRUE, {"coroutine.create", "coroutine.resume"}),
+    Rt("load-chunk", Both, "plain", "return", TRUE, {"load", "select"}),   \* a chunk compiled in the context calls F
+    Rt("load-reader", Both, "plain", "return", TRUE, {"load"}),            \* load(F)
+    Rt("for-iter", Both, "plain", "return", TRUE, {}),                     \* for x in F, s, c do
+    Rt("ctx-body", Both, "plain", "return", TRUE, {"runtime.callcontext", "tostring"}),  \* runtime.callcontext({}, F, ...)
+    Rt("sort-cmp", Both, "plain", "return", TRUE, {"table.sort"}),
+    Rt("gsub-repl", Both, "plain", "return", TRUE, {"string.gsub"}),
+    Rt("hook-call", Both, "plain", "return", FALSE, HookCarriers),         \* debug.sethook(co, F, "c"): hooks of a coroutine
+    Rt("hook-return", Both, "plain", "return", FALSE, HookCarriers),
+    Rt("hook-line", Both, "plain", "return", FALSE, HookCarriers) }
+
+(* metamethods: F (or a Lua closure calling F) is the metamethod; the operation is performed by Lua code or by a library function *)
+MetaRoutes ==
+  { Rt(e, Both, "plain", "return", TRUE, {}) :
+      e \in {"mm-index", "mm-newindex", "mm-call", "mm-eq", "mm-lt", "mm-le", "mm-concat", "mm-len", "mm-unm", "mm-add", "mm-sub",
+             "mm-mul", "mm-div", "mm-mod", "mm-pow", "mm-idiv", "mm-band", "mm-bor", "mm-bxor", "mm-shl", "mm-shr", "mm-bnot"} }
+  \cup
+  { Rt("mm-tostring", Both, "plain", "return", TRUE, {"tostring"}),
+    Rt("mm-tostring-format", Both, "plain", "return", TRUE, {"string.format"}),
+    Rt("mm-tostring-print", Both, "plain", "return", TRUE, {"print"}),
+    Rt("mm-pairs", Both, "plain", "return", TRUE, {"pairs"}),
+    Rt("mm-index-unpack", Both, "plain", "return", TRUE, {"table.unpack"}),
+    Rt("mm-index-ipairs", Both, "plain", "return", TRUE, {"ipairs", "~ipairsiterator"}),
+    Rt("mm-len-unpack", Both, "plain", "return", TRUE, {"table.unpack"}),
+    Rt("mm-newindex-insert", Both, "plain", "return", TRUE, {"table.insert"}),
+    Rt("mm-lt-sort", Both, "plain", "return", TRUE, {"table.sort"}) }
+
+CloseRoutes ==
+  { Rt("close-scope", Both, "close", "return", TRUE, {}),                  \* do local x <close> = v end
+    Rt("close-return", Both, "close", "return", TRUE, {}),
+    Rt("close-break", Both, "close", "return", TRUE, {}),
+    Rt("close-error", Both, "close", "return", FALSE, {"error"}),          \* closed while an error unwinds to a pcall
+    Rt("close-for", Both, "close", "return", TRUE, {"next"}),              \* the closing value of a generic for
+    Rt("close-coclose", Both, "close", "return", TRUE, {"coroutine.create", "coroutine.resume", "coroutine.yield", "coroutine.close"}),
+    Rt("close-co-error", Both, "close", "return", FALSE, {"coroutine.wrap", "~wrap", "error"}),
+    Rt("ctxclose-error", Both, "ctxclose", "error", FALSE, {"error"}),     \* the context body fails with the variable pending
+    Rt("ctxclose-kill", Both, "ctxclose", "kill", FALSE, {}) }             \* the context is terminated with the variable pending
+
+GcRoutes ==
+  { Rt("gc-table-return", Both, "gc", "return", FALSE, {"setmetatable"}),
+    Rt("gc-table-error", Both, "gc", "error", FALSE, {"setmetatable", "error"}),
+    Rt("gc-table-kill", Both, "gc", "kill", FALSE, {"setmetatable"}),
+    Rt("gc-table-collect", Both, "gc", "return", FALSE, {"setmetatable", "gogc"}),   \* unreachable and collected while the context runs
+    Rt("gc-udata-return", Both, "gc", "return", FALSE, {"newres"}),
+    Rt("gc-udata-error", Both, "gc", "error", FALSE, {"newres", "error"}),
+    Rt("gc-udata-kill", Both, "gc", "kill", FALSE, {"newres"}),
+    Rt("gc-udata-collect", Both, "gc", "return", FALSE, {"newres", "gogc"}) }
+
+Routes == CallRoutes \cup MetaRoutes \cup CloseRoutes \cup GcRoutes
+
+(* what the harness itself needs in the context *)
+HarnessCarriers(r, m, c) ==
+  {"pcall", "table.pack", "io.type", "type"}
+            \cup (IF r.exit = "kill" /\ c[Len(c)].lim = "none" THEN {"runtime.killcontext"} ELSE {})
+            \cup (IF r.exit = "error" THEN {"error"} ELSE {})
+
+(* per carrier name: does the inventory have it, and the flags every function of that name has declared (constants:
+   TLC evaluates them once) *)
+AllCarrierKeys == UNION { r.carriers : r \in Routes } \cup {"pcall", "table.pack", "io.type", "type", "runtime.killcontext", "error", "runtime.callcontext"}
+KeyPresent == [k \in AllCarrierKeys |-> \E f \in 1..NFn : Key[f] = k]
+KeyDeclared == [k \in AllCarrierKeys |-> { fl \in Flags : \A f \in 1..NFn : Key[f] = k => fl \in Declared[f] }]
+KeyAllowed(k, R) == KeyPresent[k] /\ R \subseteq KeyDeclared[k]
+Available(r, m, c) ==
+  /\ \A k \in r.carriers \cup HarnessCarriers(r, m, c) : KeyAllowed(k, Req(c))
+  /\ \A i \in 1..(Len(c) - 1) : KeyAllowed("runtime.callcontext", ReqAt(c, i))
+
+(* is the handler run at all?  A terminated context returns at once: its pending to-be-closed variables are dropped and
+   the finalisers of the pool it owns are never run (only resources are released).  Finalisers registered in a shared
+   pool survive the context and are run by the owner of the pool (at the latest when it ends / the runtime is closed). *)
+Reached(r, c) ==
+  CASE r.hook = "ctxclose" -> r.exit # "kill"
+    [] r.hook = "gc" -> ~(r.exit = "kill" /\ Owner(c) = Len(c))
+    [] OTHER -> TRUE
+
+(* the sets of required flags that can be in force when the handler runs *)
+GateSets(r, c) ==
+  IF r.hook = "gc" /\ ~StrictGc THEN { ReqAt(c, i) : i \in Owner(c)..Len(c) } ELSE { Req(c) }
+
+Verdicts(f, r, c) ==
+  IF ~Reached(r, c) THEN {"notreached"}
+  ELSE { IF Allowed(f, R) THEN "runs" ELSE "refused" : R \in GateSets(r, c) }
+
+(* no outside effect may be observed *)
+NoEffect(f, r, c) == ~Reached(r, c) \/ \A R \in GateSets(r, c) : ~Allowed(f, R) \/ "iosafe" \in R
+
+(* the outcome of the operation that triggers the handler, where the route determines it.  In mode "lua" the handler is a
+   Lua closure that calls the function under pcall: a refusal is an ordinary error, so the closure catches it and the
+   operation succeeds (a library function that runs may itself disturb what follows: not determined) *)
+Site(f, r, m, c) ==
+  LET v == Verdicts(f, r, c) IN
+  IF ~r.prop \/ ~Reached(r, c) THEN "any"
+  ELSE IF m = "lua" THEN (IF Kind[f] = "probe" \/ "runs" \notin v THEN "succeeds" ELSE "any")
+  ELSE IF v = {"refused"} THEN "fails"
+  ELSE IF v = {"runs"} /\ Kind[f] = "probe" THEN "succeeds"
+  ELSE "any"
+
+(* a refusal never changes how the context ends *)
+Status(r) == CASE r.exit = "return" -> "done" [] r.exit = "error" -> "error" [] OTHER -> "killed"
+
+(* which functions go through which routes *)
+AllFlags(f) == Declared[f] = Flags
+Rep(f) == Kind[f] = "lib" /\ \A g \in 1..(f - 1) : ~(Kind[g] = "lib" /\ Declared[g] = Declared[f] /\ Class[g] = Class[f])
+RepSet == { f \in 1..NFn : Rep(f) }
+FnsPlain ==
+  { f \in 1..NFn :
+      \/ Kind[f] = "probe"
+      \/ f \in RepSet /\ (~AllFlags(f) \/ Class[f] # "pure")                 \* one per (declared set, effect class)
+      \/ Kind[f] = "lib" /\ AllLibOnRoutes /\ ~AllFlags(f) }
+FnsCore ==                                                                    \* close and gc routes: also every undeclared / effectful one
+  FnsPlain \cup { f \in 1..NFn : Kind[f] = "lib" /\ (Declared[f] = {} \/ Class[f] # "pure") }
+RouteFns(r) == IF r.hook = "plain" THEN FnsPlain ELSE FnsCore
+(* a case in which nothing can be refused and nothing could have an effect carries no information for a library function *)
+Informative(f, r, c) ==
+  \/ Kind[f] = "probe"
+  \/ Verdicts(f, r, c) # {"runs"}
+  \/ Class[f] # "pure" /\ \E R \in GateSets(r, c) : "iosafe" \in R
+
+SyncRoutes == { r \in Routes : r.hook \in {"plain", "close"} }
+ExitRoutes == { r \in Routes : r.hook \in {"gc", "ctxclose"} }
+
+(* one step = the route r in mode m is exercised, in the innermost context of the chain, for every function selected *)
+CallVia(r, m) ==
+  LET av == Available(r, m, ch)
+      Fs == { f \in RouteFns(r) : Informative(f, r, ch) }
+  IN
+  /\ alive /\ n < 1 /\ Fs # {}
+  /\ n' = n + 1
+  /\ alive' = (r.exit = "return")
+  /\ effects' = IF av /\ Reached(r, ch)
+                THEN effects \cup { e \in { <<f, Class[f], R>> : f \in Fs, R \in GateSets(r, ch) } : MayEffect(e[1], e[3]) }
+                ELSE effects
+  /\ hist' = Append(hist, <<r.name, m>>)
+  /\ UNCHANGED <<fam, ch, req>>
+  /\ Emit([fam |-> "route", route |-> r.name, mode |-> m, hook |-> r.hook, exit |-> r.exit, ch |-> ch, req |-> req,
+           available |-> av,
+           missing |-> { k \in r.carriers \cup HarnessCarriers(r, m, ch) : ~KeyPresent[k] },   \* carriers the inventory does not have at all
+           owner |-> Owner(ch), prop |-> r.prop,
+           status |-> Status(r),
+           fns |-> { [f |-> f, exp |-> Verdicts(f, r, ch), noeffect |-> NoEffect(f, r, ch), site |-> Site(f, r, m, ch)] : f \in Fs }])
+
+Next == \/ \E f \in 1..NFn : CallGo(f)
+        \/ /\ fam \in {"plain", "exit"}
+           /\ \E r \in (IF fam = "plain" THEN SyncRoutes ELSE ExitRoutes) : \E m \in r.modes : CallVia(r, m)
 Spec == Init /\ [][Next]_allvars
 
 (* the statement to decide: with the inventory as extracted, can an outside effect happen under iosafe? *)
-IoSafe == ("iosafe" \in req) => effects = <<>>
-RefusedBeforeEffect == \A i \in 1..Len(effects) : Allowed(effects[i][1], req)
+IoSafe == \A e \in effects : "iosafe" \notin e[3]
+RefusedBeforeEffect == \A e \in effects : Allowed(e[1], e[3])
+(* whatever the route, a verdict is one the direct call would get in one of the contexts sharing the pool, and when the
+   innermost context owns its pool (or the route is not a finaliser) it is exactly the direct call's verdict *)
+RouteIndependence ==
+  (fam # "direct" /\ n = 0) =>
+    \A r \in Routes : (Reached(r, ch) /\ (r.hook # "gc" \/ Owner(ch) = Len(ch))) => GateSets(r, ch) = {req}
 =============================================================================
